@@ -39,6 +39,8 @@ type HarnessResult struct {
 	WallS         float64           `json:"wall_s"`
 	Truncated     bool              `json:"path_limit_hit,omitempty"`
 	Retried       bool              `json:"retried_with_tripled_solver_limits,omitempty"`
+	sampling       int // (unused) samples being computed
+	skippedSamples int // completed paths not eligible for native validation
 	Compose       *composeResult    `json:"scheduler_composition,omitempty"`
 	StageA        int               `json:"string_queries_decided_unbounded"`
 	StageB        int               `json:"string_queries_decided_bounded"`
@@ -269,7 +271,10 @@ func (w *World) runHarness(h *Harness, workers int, solverKind string, nvalid in
 				var sample *pathSample
 				if pr.Stop.kind == "done" {
 					mu.Lock()
-					want := res.Done < nvalid && !h.NoValidate
+					want := res.Done+res.sampling-res.skippedSamples < nvalid && !h.NoValidate && !e.noSample
+					if e.noSample {
+						res.skippedSamples++
+					}
 					mu.Unlock()
 					if want {
 						sample = e.modelSample(pr)
